@@ -1769,11 +1769,55 @@ def rule_cuthill(w):
                   fn.file, fr.node.get("l"))
     # ---- finalisation ----------------------------------------------------------------------------------
     calls = [e for e in fk.events if e.kind == "call" and e.name == "calc_swap_from_perm" and e.obj == "perm" and not e.frames]
-    rets = [n for n, f, a in fk.returns if n is not None]
-    okf = len(calls) == 1 and all(fk.okey(strip(r.get("e"))) == "perm" or render(strip(r.get("e"))).find("perm") >= 0 for r in rets) and \
-        all(e.seq < calls[0].seq for e in fk.events if e.kind == "sub" and e.mode == "write" and e.arr.key == PA)
-    vob(ck, fk, ("perm",), NAMES, "E7.cm-finalise", "CuthillMcKee::compute", okf, "calc_swap_from_perm() is called once after the last store into the permutation array and before `return perm`" if okf else
-          "the swap array of the returned permutation is not recomputed after the ordering was built", fn.file, calls[0].node.get("l") if calls else fn.line)
+    writes_pa = [e for e in fk.events if e.kind == "sub" and e.mode == "write" and e.arr.key == PA]
+    first_w = min([e.seq for e in writes_pa] or [10 ** 9])
+
+    def ret_kind(rnode):
+        """'ordering': the permutation the ordering was written into; 'empty': a fresh default-constructed Permutation (nothing was built, nothing to finalise)"""
+        x = strip(rnode.get("e"))
+        for _ in range(4):
+            if x is not None and x.get("k") in ("Construct", "TempObj") and len(x.get("a", [])) == 1:
+                x = strip(x["a"][0])
+            elif x is not None and x.get("k") == "Call" and (x.get("callee") or "") in ("std::move", "std::forward") and x.get("a"):
+                x = strip(x["a"][0])
+        if x is None:
+            return "other"
+        if fk.okey(x) == "perm":
+            return "ordering"
+        if x.get("k") == "Ref" and x.get("dk") == "local" and not fk.mut.get(x.get("d")):
+            # a named empty permutation: `Permutation none; return none;`
+            v0 = fk.locals.get(x.get("d"))
+            i0 = strip(v0.get("init")) if v0 is not None and v0.get("init") is not None else None
+            used = [e for e in fk.events if e.kind == "call" and e.obj == x.get("n")]
+            if i0 is not None and i0.get("k") in ("Construct", "TempObj") and re.search(r"Adjacency::Permutation::Permutation$", i0.get("callee") or "") and not i0.get("a") and not used:
+                return "empty"
+        if x.get("k") in ("Construct", "TempObj") and re.search(r"Adjacency::Permutation::Permutation$", x.get("callee") or "") and not x.get("a"):
+            return "empty"
+        return "other"
+    rev = [e for e in fk.events if e.kind == "return"]
+    kinds = [(ret_kind(e.node), e) for e in rev]
+    unclear_f = []
+    problems_f = []
+    for kd, e in kinds:
+        if kd == "empty":
+            if e.seq > first_w:
+                problems_f.append("an empty Permutation is returned at line %s after nodes were already entered into the ordering" % e.node.get("l"))
+        elif kd == "ordering":
+            okc = [c for c in calls if c.seq < e.seq and all(w_.seq < c.seq for w_ in writes_pa if w_.seq < e.seq)]
+            if len(okc) != 1 or len(calls) != 1:
+                problems_f.append("`return perm` at line %s is not preceded by exactly one calc_swap_from_perm() after the last store into the permutation array" % e.node.get("l"))
+        else:
+            unclear_f.append("the value returned at line %s (%s) is neither the ordering nor an empty Permutation" % (e.node.get("l"), render(strip(e.node.get("e")))[:50]))
+    if not any(kd == "ordering" for kd, e in kinds):
+        unclear_f.append("no return of the permutation the ordering is written into found")
+    if unclear_f and not problems_f:
+        ck.incomplete("E7.cm-finalise", "CuthillMcKee::compute: %s" % "; ".join(unclear_f))
+    else:
+        okf = not problems_f
+        vob(ck, fk, ("perm",), NAMES, "E7.cm-finalise", "CuthillMcKee::compute", okf,
+            "calc_swap_from_perm() is called once after the last store into the permutation array and before `return perm`%s" % (
+                "; the early return of an empty Permutation (empty graph) precedes every store" if any(kd == "empty" for kd, e in kinds) else "") if okf else
+            "the swap array of the returned permutation is not recomputed after the ordering was built: " + "; ".join(problems_f), fn.file, calls[0].node.get("l") if calls else fn.line)
 
 
 def _is_perm_elem(fk, val, key):
